@@ -630,6 +630,8 @@ fn internal_descriptors(ctx: &Ctx) -> u64 {
         ("substitution", "x=$(fds in); y=`fds bq`; : $(fds arg) <e"),
         ("here-document", "{ fds in; cat >/dev/null; } <<E\nbody\nE"),
         ("pipeline", "fds in | { cat >/dev/null; fds last; }"),
+        ("pipeline-3", "fds in | cat | { cat >/dev/null; fds last; }"),
+        ("pipeline-4", ": | : | fds in | :"),
         ("eval", "eval 'fds in; . ./script'"),
         ("builtin-redirected", "fds in >w; fds in2 2>>w <e"),
         ("trap", "trap 'fds in' USR1; kill -s USR1 $$; trap - USR1"),
@@ -809,7 +811,7 @@ pub fn run(tier: Tier) -> i32 {
         "internal_descriptor_scenarios": internal_runs,
         "evaluations": evals.load(Relaxed) + internal_runs,
         "distinct_nontrivial": nontrivial.lock().unwrap().len(),
-        "rule": "every redirection list of length <= 2 (thorough: + a length-3 slice) over the operator x target-fd x operand alphabet, on each of 11 command kinds, with noclobber on/off where it matters; fault cases repeat lists under `ulimit -n N` for every N in 5..=14 so that each descriptor allocation (save-dup to >=10, open, here-document temp file, dup2) fails at some N. Non-trivial = a redirection fails, or a descriptor limit is in force, or two redirections hit the same descriptor; distinct by script text. Plus 12 scenarios in which the shell holds descriptors of its own (dot scripts, nested dot, saved copies for redirected groups/functions/built-ins, substitutions, here-documents, pipelines, eval, traps, async lists) x 3 user descriptor layouts (none, 3..9 all taken, 3 5 9) x 3 ways of reading the main script (-c, file operand, standard input) and, for -c, under every descriptor limit 5..14 (table at exit = table before the scenario): at every probe every descriptor >= 10 is close-on-exec and nothing the script did not open is below 10.",
+        "rule": "every redirection list of length <= 2 (thorough: + a length-3 slice) over the operator x target-fd x operand alphabet, on each of 11 command kinds, with noclobber on/off where it matters; fault cases repeat lists under `ulimit -n N` for every N in 5..=14 so that each descriptor allocation (save-dup to >=10, open, here-document temp file, dup2) fails at some N. Non-trivial = a redirection fails, or a descriptor limit is in force, or two redirections hit the same descriptor; distinct by script text. Plus 14 scenarios in which the shell holds descriptors of its own (dot scripts, nested dot, saved copies for redirected groups/functions/built-ins, substitutions, here-documents, pipelines, eval, traps, async lists) x 3 user descriptor layouts (none, 3..9 all taken, 3 5 9) x 3 ways of reading the main script (-c, file operand, standard input) and, for -c, under every descriptor limit 5..14 (table at exit = table before the scenario): at every probe every descriptor >= 10 is close-on-exec and nothing the script did not open is below 10.",
         "samples": samples.take(),
         "plain_cases": n_plain,
         "fault_cases": cases.len() - n_plain,
